@@ -537,7 +537,21 @@ fn apply_sack_to_sent_queue(
     let before_head = sent_queue.keys().next().cloned();
 
     // 0. Filter out late SACKs
-    if let Some(&lowest_tsn) = sent_queue.keys().next()
+    // The map orders TSNs numerically. While the outstanding TSNs straddle the 2^32
+    // wrap-around the first key is not the oldest TSN (that is the first key of the
+    // upper half); measured against the first key, a fresh cumulative ack for a TSN
+    // just below the wrap looked like a reordered old SACK and was dropped, so chunks
+    // it covered were retransmitted again.
+    let oldest_tsn = match (sent_queue.keys().next(), sent_queue.keys().next_back()) {
+        (Some(&first), Some(&last)) if (last.wrapping_sub(first) as i32) < 0 => sent_queue
+            .range(0x8000_0000u32..)
+            .next()
+            .map(|(&tsn, _)| tsn)
+            .or(Some(first)),
+        (Some(&first), _) => Some(first),
+        _ => None,
+    };
+    if let Some(lowest_tsn) = oldest_tsn
         && (cumulative_tsn_ack.wrapping_sub(lowest_tsn.wrapping_sub(1)) as i32) < 0
     {
         // This SACK is even older than our earliest outstanding TSN,
